@@ -185,6 +185,7 @@ func (c *columnString) Apply(chunk commit.Chunk, r *commit.Reader) {
 			data[offset] = r.SwapString(c.Merge(data[offset], r.String()))
 		case commit.Delete:
 			fill.Remove(uint32(offset))
+			data[offset] = ""
 		}
 	}
 }
